@@ -398,6 +398,6 @@ func TestC13(t *testing.T) {
 	pbt.Main(t, pbt.Prop[Case]{
 		ID: "C13", Name: "delivery",
 		Rule: "rapid-generated M3 reporter configurations (Compact/Binary, 1..3 real loopback destinations - in a quarter of the cases with an additional unreachable destination somewhere in the host list (sends to it fail), which must not disturb the live ones -, queue size 1..4096, common tags, packet size, default or custom bucket tag names) and 1..4 producer goroutines (real threads) started right after NewReporter, each a history of 1..12 Allocate*+Report*/Flush ops (and, in a sixth of the cases, bursts of 50..3000 distinct values per producer through ONE counter, gauge and timer handle shared by all producers) with arbitrary byte-string names, tag keys/values drawn from an alphabet rich in '=' (so that different tag maps have equal 'k=v' strings), full-range int64/float64 values, occasionally a name longer than MaxPacketSizeBytes (such a metric must still be delivered exactly once), histogram buckets of strictly increasing specs, repeats; then Close. Oracle per destination: every datagram decodes as exactly one well-formed one-way message with the configured common tags (service and env included); the multiset of decoded non-internal metrics (name, kind, value bits, tag set, bucket tags present) equals the multiset reported; timestamps within [construction, return of the report call] (+1ms); Close returned only after every emitted batch had been sent (all datagrams present). Non-trivial: >=2 distinct tag sets and >=2 datagrams. Distinct: FNV-64 of the case JSON.",
-		Gen:  gen, Run: run,
+		Gen:  gen, Run: run, HangAfter: 90 * time.Second,
 	})
 }
